@@ -2,9 +2,10 @@
     tree/edgeindex.go AddEdgeCount / Edges(min,max), tree/treegen.go StarTree / StarTreeFromTree,
     tree/algo.go LeastCommonAncestorUnrooted / LeastCommonAncestorRecur / AddBipartition.
 
-    Counting is per BRANCH, as coded: every branch of Tree.Edges() goes through AddEdgeCount, so
-    a rooted input (root of degree 2) contributes the split of its root twice.
-    Lengths are summed as numbers, the -1 "absent" sentinel included (Len += e.Length()).
+    Counting is per BRANCH of Tree.Edges(), as coded; since the fix c884a9e a rooted input (root of
+    degree 2) is first replaced by an unrooted copy (Clone + UnRoot), so that its root split is
+    one branch.  Lengths are summed as numbers, the -1 "absent" sentinel included
+    (Len += e.Length()).
 
     The split index is a parameter ([Section Gen]); instances: the model of the real hash index
     (NewEdgeIndex(128, .75); this fixes the ORDER in which Edges(min,max) lists the selected
@@ -13,16 +14,18 @@
     the judge compares the Go tree structurally with [consensus_hm] and checks that both
     instances select the same splits with the same counts and sums.
 
-    binary64: the only floating-point expression whose rounding decides anything is
-    [int(cutoff*float64(nbtrees))].  It is modelled EXACTLY on rationals: [round53] rounds a
-    positive rational to the nearest binary64 (ties to even; normal range only, which covers
-    0.5 <= cutoff <= 1 and 1 <= nbtrees < 2^53), the conversion of the tree count is exact, the
-    product is rounded once, [int(.)] truncates.  The command line gives Consensus the binary64
-    nearest to the decimal threshold the user typed: [consensus] takes that decimal as a rational
-    and rounds it first.  Proofs/ConsensusFloat.v cross-checks [round53] and the whole expression
-    against Coq's primitive floats (FloatOps) by [vm_compute] on the thresholds the generators use.
-    The divisions Len/Count and Count/nbtrees are exact rationals in the model; the judge accepts
-    Go's float64 when it is within 2^-50 relative of that rational.
+    binary64: the only floating-point expression whose rounding decides anything is the test
+    [float64(Count)/float64(nbtrees) <= cutoff] (since the fix 27ef6c9; before: the bound
+    [int(cutoff*float64(nbtrees))], kept as [keep_split_old]).  It is modelled EXACTLY on
+    rationals: [round53] rounds a rational to the nearest binary64 (ties to even; normal range
+    only, which covers 1/nbtrees .. 1 and 0.5 <= cutoff <= 1 for nbtrees < 2^53), the integer
+    conversions are exact, the quotient is rounded once.  The command line gives Consensus the
+    binary64 nearest to the decimal threshold the user typed: [consensus] takes that decimal as a
+    rational and rounds it first.  Proofs/ConsensusFloat.v cross-checks [round53] and both
+    expressions against Coq's primitive floats (FloatOps) by [vm_compute] on the thresholds the
+    generators use.
+    The divisions Len/Count and Count/nbtrees that only produce output values are exact rationals
+    in the model; the judge accepts Go's float64 when it is within 2^-50 relative of that rational.
 
     The star tree is modified through pointers (neighbour lists of nodes): the model keeps an
     explicit graph (node ids, per-node neighbour list [(node id, edge id)] in Node.neigh order,
@@ -60,14 +63,24 @@ Definition round53 (x : Q) : Q :=
   | Zneg n => (- round53_pos n (Qden x))%Q
   end.
 
-(** int(cutoff * float64(nbtrees)) for cutoff >= 0 : rounded product, truncated *)
-Definition min_count (cutoff64 : Q) (nbtrees : Z) : Z :=
-  Qfloor (round53 (cutoff64 * inject_Z nbtrees)%Q).
-
 (** EdgeIndex.Edges(minCount, maxCount) keeps v.Count when
     (v.Count > minCount && v.Count <= maxCount) || v.Count == maxCount *)
 Definition keep_count (minc maxc c : Z) : bool :=
   ((minc <? c)%Z && (c <=? maxc)%Z) || (c =? maxc)%Z.
+
+(** float64(count)/float64(nbtrees): both conversions exact, one rounded division *)
+Definition freq64 (c n : Z) : Q := round53 (inject_Z c / inject_Z n)%Q.
+
+(** a split listed by Edges(0, nbtrees) is kept unless
+    float64(Count)/float64(nbtrees) <= cutoff && Count != nbtrees *)
+Definition keep_split (cutoff64 : Q) (n c : Z) : bool :=
+  keep_count 0 n c && negb (Qle_bool (freq64 c n) cutoff64 && negb (c =? n)%Z).
+
+(** the selection before the fix 27ef6c9, kept for the record (Proofs/ConsensusFloat.v shows where it
+    differs): Edges(int(cutoff*float64(nbtrees)), nbtrees) *)
+Definition min_count (cutoff64 : Q) (nbtrees : Z) : Z :=
+  Qfloor (round53 (cutoff64 * inject_Z nbtrees)%Q).
+Definition keep_split_old (cutoff64 : Q) (n c : Z) : bool := keep_count (min_count cutoff64 n) n c.
 
 (** * the star tree as a graph *)
 Record gedge : Type := mkGE { ge_l : nat; ge_r : nat; ge_len : Q; ge_sup : Q; ge_pv : Q }.
@@ -272,6 +285,27 @@ Fixpoint apply_splits (alltips ids : list string) (nbtrees : Z) (g : graph) (kvs
     end
   end.
 
+(** * rooted inputs: if curtree.Tree.Rooted() { curtree.Tree = curtree.Tree.Clone(); curtree.Tree.UnRoot() }
+    Tree.Clone rebuilds the tree from the root with ConnectNodes(parent, child) before the child's
+    own children are connected: in the copy every non-root node has its parent FIRST, then its
+    children in their original order; names, node comments, lengths, supports, p-values and branch
+    comments are copied.  UnRoot is Model.Reroot.unroot. *)
+Fixpoint clone_sub (t : utree) : utree :=
+  match t with
+  | UNode n c sl =>
+    UNode n c (None :: flat_map (fun s => match s with
+                                          | Some (e, ch) => [Some (e, clone_sub ch)]
+                                          | None => [] end) sl)
+  end.
+Definition clone (t : utree) : utree :=
+  match t with
+  | UNode n c sl =>
+    UNode n c (flat_map (fun s => match s with
+                                  | Some (e, ch) => [Some (e, clone_sub ch)]
+                                  | None => [] end) sl)
+  end.
+Definition prep_input (t : utree) : utree := if rooted t then unroot (clone t) else t.
+
 (** * the loop over the input trees *)
 Record star_info : Type := mkStar { st_alltips : list string; st_tipedges : list (string * Q); st_ids : list string }.
 
@@ -288,8 +322,9 @@ Section Gen.
     end.
 
   (** the body of "for curtree := range trees" *)
-  Definition cons_step (i : nat) (m : IX) (star : option star_info) (t : utree)
+  Definition cons_step (i : nat) (m : IX) (star : option star_info) (t0 : utree)
     : option (res (IX * star_info)) :=
+    let t := prep_input t0 in
     match reinit i t with
     | None => None
     | Some (Err e) => Some (Err e)
@@ -338,9 +373,11 @@ Section Gen.
     | Some (Ok (m, _, n)) => Some (Ok (ix_kvs m, n))
     end.
 
-  (** selection: edgeindex.Edges(int(cutoff*float64(nbtrees)), nbtrees) *)
+  (** selection:
+        for _, bs := range edgeindex.Edges(0, nbtrees) {
+          if float64(bs.val.Count)/float64(nbtrees) <= cutoff && bs.val.Count != nbtrees { continue } ... *)
   Definition select (cutoff64 : Q) (n : Z) (kvs : list (ekey * einfo_v)) : list (ekey * einfo_v) :=
-    filter (fun kv => keep_count (min_count cutoff64 n) n (fst (snd kv))) kvs.
+    filter (fun kv => keep_split cutoff64 n (fst (snd kv))) kvs.
 
   (** Consensus(trees, cutoff); [cutoff64] is the float64 the function receives *)
   Definition consensus_gen (ts : list utree) (cutoff64 : Q) : option (res utree) :=
